@@ -39,6 +39,11 @@ func (c17) Exec(c Case) []string {
 	if !(len(c.Variant) == 1 && c.Variant[0] == "nil") {
 		q = stanza.NewUnAckQueue()
 	}
+	if len(c.Variant) == 2 && c.Variant[0] == "seed" {
+		// a queue that already holds one entry with a large sequence number (as the tests of the library build them)
+		id, _ := strconv.Atoi(c.Variant[1])
+		q = &stanza.UnAckQueue{Uslice: []*stanza.UnAckedStz{{Id: id, Stz: "seed"}}}
+	}
 	var obs []string
 	scratch := &stanza.UnAckedStz{} // one object re-used by every `pushsame`: the queue must hold copies
 	for _, op := range c.Ops {
@@ -188,6 +193,16 @@ func (c17) Generate(rng *rand.Rand, tier string, st *Stats) []Case {
 		ops = append(ops, []string{"peek"}, []string{"pop"}, []string{"popn", strconv.Itoa(3 * n)}, []string{"empty"}, []string{"pushsame", hx("<after/>")}, []string{"peek"})
 		cases = append(cases, Case{ID: fmt.Sprintf("long%d", k), Ops: ops})
 		st.Inc("long_queue")
+	}
+	// sequence numbers around the 32-bit boundaries (and a large one): they go on increasing, nothing wraps
+	for _, id := range []string{"2147483646", "4294967293", "4294967295", "1099511627775"} {
+		var ops [][]string
+		for j := 0; j < 5; j++ {
+			ops = append(ops, []string{"push", hx(fmt.Sprintf("<m n='%d'/>", j))})
+		}
+		ops = append(ops, []string{"peekn", "3"}, []string{"popn", "2"}, []string{"push", hx("<z/>")}, []string{"popn", "9"}, []string{"push", hx("<after/>")}, []string{"peek"})
+		cases = append(cases, Case{ID: "seed" + id, Variant: []string{"seed", id}, Ops: ops})
+		st.Inc("large_sequence_numbers")
 	}
 	// nil receiver
 	for i := 0; i < 20; i++ {
